@@ -448,21 +448,22 @@ theorem nameLoop_tr : ∀ (fuel : Nat) (inp acc orig name rest : List Nat),
     unfold nameLoop at h
     split at h
     · cases h
-    · rename_i c rest1 hnc
-      have h1 := nameChar_tr hnc
+    · rename_i c0 rest0
       split at h
       · rename_i hc; simp at hc; subst hc
         cases h
-        rcases h1 with h1 | h1
-        · exact h1
-        · rw [h1]; exact TrR.plain (by unfold Plain; omega) _
+        exact TrR.plain (by unfold Plain; omega) _
       · split at h
-        · rename_i hid
-          have h2 := nameLoop_tr fuel _ _ _ _ _ h
-          rcases h1 with h1 | h1
-          · exact h1.trans h2
-          · rw [h1]; exact (TrR.plain (plain_idContinue hid) _).trans h2
         · cases h
+        · rename_i c rest1 hnc
+          have h1 := nameChar_tr hnc
+          split at h
+          · rename_i hid
+            have h2 := nameLoop_tr fuel _ _ _ _ _ h
+            rcases h1 with h1 | h1
+            · exact h1.trans h2
+            · rw [h1]; exact (TrR.plain (plain_idContinue hid) _).trans h2
+          · cases h
 
 theorem tryConsumeName_tr {inp name rest : List Nat} (h : tryConsumeName inp = .ok (some name, rest)) :
     TrR inp rest := by
